@@ -38,6 +38,13 @@ class AutoNamer:
         else:
             return result
 
+    def peek_next(self, existing_names, prefix=""):
+        """The name :meth:`get_next` would return, the counter unchanged"""
+        postfix = self.__last_postfix + 1
+        while prefix + self.__basename + str(postfix) in existing_names:
+            postfix += 1
+        return prefix + self.__basename + str(postfix)
+
     def revert(self):
         self.__last_postfix -= self.__last_postfix and 1
 
